@@ -458,7 +458,14 @@ def main():
                     continue
             else:
                 n = st[tier]
-                cases = corpus_cases(name) + gen_cases(name, seed, n)
+                try:
+                    cases = corpus_cases(name) + gen_cases(name, seed, n)
+                except RuntimeError as e:
+                    # generators use the crate too (to write the files they then damage, to pick
+                    # conforming values): if that fails the stream cannot be produced and nothing is
+                    # shown for it - reported, not skipped
+                    unchecked.append(f"stream {name}: " + str(e)[:400])
+                    cases = corpus_cases(name)
             if not cases:
                 continue
             if rust is None:
@@ -571,6 +578,18 @@ def main():
                     elif strip(a).replace(" 1", " 0") != strip(b).replace(" 1", " 0"):
                         v["kind"] = "oracle"
                         v["detail"] = "slice and reader entry points give different values for one message | " + v["detail"]
+        elif "READER-DIFFERS" in rt:
+            v["kind"] = "oracle"
+            v["detail"] = "the bytes just written decode to another value (or fail) through the reader entry point than from the slice | " + v["detail"]
+        elif rt[:1] == ["GENERATOR-WRITE-FAILED"]:
+            v["kind"] = "oracle"
+            v["detail"] = "the container writer returned an error on conforming values | " + v["detail"]
+        elif rt[:1] == ["timeout"]:
+            v["kind"] = "oracle"
+            v["detail"] = "the call did not return within its time limit (work not bounded by the size of the input) | " + v["detail"]
+        elif v["case"].startswith("dealloc ") and rt[:1] == ["ok"] and any(t.startswith("allocs=") and t != "allocs=0" for t in rt):
+            v["kind"] = "oracle"
+            v["detail"] = "the slice path made heap allocations of its own on a successful decode | " + v["detail"]
         elif "FRESH-DIFFERS" in rt or "INTERFERENCE-UNEXPECTED" in rt:
             v["kind"] = "oracle"
             v["detail"] = ("a configuration used before (incl. lent to a container-writer build that failed) gives another "
